@@ -187,6 +187,29 @@ type c12Origin struct {
 	reqs    sync.Map     // proto -> *atomic.Int64
 	mu      sync.Mutex
 	seen    []c12Seen
+	hellos  []c12Hello // every ClientHello received (TCP and QUIC listeners), in order
+}
+
+// c12Hello is what a ClientHello offered.
+type c12Hello struct {
+	quic bool
+	sni  string
+	alpn []string
+}
+
+func (o *c12Origin) noteHello(quic bool, chi *tls.ClientHelloInfo) {
+	o.mu.Lock()
+	o.hellos = append(o.hellos, c12Hello{quic, chi.ServerName, append([]string(nil), chi.SupportedProtos...)})
+	o.mu.Unlock()
+}
+
+func (o *c12Origin) hellosFrom(n int) []c12Hello {
+	o.mu.Lock()
+	defer o.mu.Unlock()
+	if n > len(o.hellos) {
+		n = len(o.hellos)
+	}
+	return append([]c12Hello(nil), o.hellos[n:]...)
 }
 
 // c12Seen is what the origin saw of one request.
@@ -305,7 +328,12 @@ func c12StartOrigin(offer c12Offer) (*c12Origin, error) {
 		}
 		h := o.handler()
 		if offer.h3 {
-			qc := qhttp3.ConfigureTLSConfig(baseTLS())
+			qb := baseTLS()
+			qb.GetConfigForClient = func(chi *tls.ClientHelloInfo) (*tls.Config, error) {
+				o.noteHello(true, chi)
+				return nil, nil
+			}
+			qc := qhttp3.ConfigureTLSConfig(qb)
 			o.h3srv = &qhttp3.Server{Handler: h, TLSConfig: qc, QUICConfig: &quic.Config{MaxIdleTimeout: 20 * time.Second}}
 			go o.h3srv.Serve(o.udp)
 		}
@@ -320,8 +348,9 @@ func c12StartOrigin(offer c12Offer) (*c12Origin, error) {
 		}
 		tc := baseTLS()
 		tc.NextProtos = append([]string(nil), offer.alpn...)
-		tc.GetConfigForClient = func(*tls.ClientHelloInfo) (*tls.Config, error) {
+		tc.GetConfigForClient = func(chi *tls.ClientHelloInfo) (*tls.Config, error) {
 			o.tcpTLS.Add(1) // a TLS ClientHello arrived on the TCP listener
+			o.noteHello(false, chi)
 			return nil, nil
 		}
 		o.srv = &http.Server{Handler: h, TLSConfig: tc, ErrorLog: c12NullLog()}
